@@ -739,3 +739,6 @@ func (g *Gen) Program(n, d int) []*Node {
 	}
 	return out
 }
+
+// DeclareRO adds a read-only variable to the current scope (used by monitors that build templates).
+func (g *Gen) DeclareRO(name string, t T) { g.declareRO(name, t) }
